@@ -2,6 +2,7 @@ import RossModel.Lemmas.SourceTie
 import RossModel.Lemmas.FrameWF
 import RossModel.Lemmas.Cobs
 import RossModel.Lemmas.Usart
+import RossModel.Lemmas.SourceFrame
 /-!
 # C09 — USART frame codec follows the byte layout, round-trips, emits no delimiter byte
 
@@ -59,5 +60,12 @@ example : fromUsart [0x0e, 0xa5, 0x55, 0x55, 0x55, 0x08, 0x55, 0x55, 0x55, 0x55,
 /-! ### tie to the source text (constants regenerated from /repo by `bin/extract` on every run) -/
 /-- `to_usart_frame` / `from_usart_frame` in `src/frame.rs` use the shifts, masks and size numbers the model uses -/
 theorem C09_src_usart_codec : (SrcTie.toUsartOk && SrcTie.fromUsartOk) = true := by decide
+
+/-- **C09's decoding clause about the decoder as it reads now**: the translated `from_usart_frame` (`Src.fromUsart`: the
+model's COBS decoder, then the size test and field extraction translated from `src/frame.rs` on every run) inverts the
+encoding of every well-formed frame -/
+theorem C09_src_fromUsart_toUsart (f : Frame) (h : f.WF) :
+    Src.fromUsart (Cobs.encode (usartBody f)) = .ok (normKind f) := by
+  rw [Ross.src_fromUsart_eq]; exact Ross.fromUsart_toUsart f h
 
 end Ross.Props
